@@ -397,7 +397,9 @@ func inReCompile(m *Machine, fr *frame, fn *ssa.Function, a []Value) Value {
 			args[i] = s.byteTerm(i)
 		}
 		okT := mk("uf", 0, fmt.Sprintf("uf_recompile_%d", len(args)), 0, args...)
-		if m.branchIn(fr, Bool{T: okT}) {
+		ok := m.branchIn(fr, Bool{T: okT})
+		m.reCompiles = append(m.reCompiles, reCompile{s: s, ok: ok})
+		if ok {
 			var v Value = Native{X: (*regexp.Regexp)(nil)}
 			return Tuple{&v, Iface{}}
 		}
@@ -965,4 +967,33 @@ func init() {
 			intrinsics["sync/atomic.Add"+t] = inAtomicAdd
 		}
 	}
+}
+
+// reCompile records one decision of the uninterpreted regexp.Compile on a symbolic expression.
+type reCompile struct {
+	s  Str
+	ok bool
+}
+
+// reCompilesRealistic: under the model, does every "compiles / does not compile" decision taken
+// on this path agree with the real regexp.Compile? (A witness or a counterexample that assumes
+// otherwise cannot be replayed natively.)
+func (m *Machine) reCompilesRealistic(model map[string]uint64) bool {
+	for _, rc := range m.reCompiles {
+		bs := []byte(rc.s.S)
+		for i := range bs {
+			if rc.s.Sym != nil && rc.s.Sym[i] != nil {
+				v, ok := rc.s.Sym[i].eval(model)
+				if !ok {
+					return false
+				}
+				bs[i] = byte(v)
+			}
+		}
+		_, err := regexp.Compile(string(bs))
+		if (err == nil) != rc.ok {
+			return false
+		}
+	}
+	return true
 }
